@@ -1239,6 +1239,21 @@ class PendingImport(PendingNode[Import]):
     def get_result(self) -> list[expr]:
         result = []
         for _alias in self.node.names:
+            if _alias.asname is None and "." in _alias.name:
+                # "import a.b" binds the top-level package to "a",
+                # this is what __import__("a.b") returns
+                result.append(
+                    self.nsp.get_assign(
+                        _alias.name.split(".")[0],
+                        Call(
+                            func=Name(id="__import__", ctx=Load()),
+                            args=[Constant(value=_alias.name)],
+                            keywords=[],
+                        ),
+                    )
+                )
+                continue
+
             if _alias.asname is None:
                 asname = _alias.name
             else:
